@@ -82,8 +82,16 @@ func c04Program(words []string, shell string, tpl int) string {
 		return "##!> cmdline " + shell + "\n" + strings.Join(append(append([]string{}, words...), "zz"), "\n") + "\n##!<\n"
 	case 2:
 		return block + "foo\n"
-	default:
+	case 3:
 		return "##!> assemble\n" + block + "##!=>\nx\n##!<\n"
+	default:
+		// the same word listed again with the other markers (before and after)
+		w := words[0]
+		base := strings.TrimSuffix(strings.TrimSuffix(strings.TrimSuffix(strings.TrimSuffix(w, `\@`), `\~`), "@"), "~")
+		if strings.HasPrefix(w, "'") || base == "" {
+			return block
+		}
+		return "##!> cmdline " + shell + "\n" + base + "@\n" + w + "\n" + base + "~\n" + base + "\n##!<\n"
 	}
 }
 
@@ -105,7 +113,7 @@ type c04Out struct {
 func c04Eval(dir string, cfg ref.CmdCfg, c c04Case, st *c04Out) *c04Fail {
 	prog := c04Program([]string{c.Word}, c.Shell, c.Template)
 	refProg := prog
-	if c.Template == 1 {
+	if c.Template == 1 || c.Template == 4 {
 		refProg = c04Program([]string{c.Word}, c.Shell, 0)
 	}
 	want, err := ref.Plain(refProg, cfg)
@@ -147,6 +155,9 @@ func C04(r *core.Run) {
 		defer os.RemoveAll(dir)
 	}
 	maxLen := r.Pick(3, 4)
+	if r.Degraded() {
+		maxLen = 1
+	}
 	type in struct {
 		Dir    string
 		MaxLen int
@@ -186,7 +197,7 @@ func C04(r *core.Run) {
 		idx := 0
 		for _, w := range words(in.MaxLen) {
 			for _, shell := range []string{"unix", "windows"} {
-				for tpl := 0; tpl < 4; tpl++ {
+				for tpl := 0; tpl < 5; tpl++ {
 					for _, cfg := range c04Configs() {
 						if idx++; idx%n != shard {
 							continue
@@ -209,6 +220,9 @@ func C04(r *core.Run) {
 		tot.PTrans += o.PTrans
 		tot.Inconclusive += o.Inconclusive
 		tot.Fails = append(tot.Fails, o.Fails...)
+	}
+	if r.Abandon() {
+		return
 	}
 	// conformance: every single-character word x ending x shell x config through the real CLI
 	type confRes struct {
@@ -248,6 +262,9 @@ func C04(r *core.Run) {
 		} else {
 			r.HarnessError("in-process and CLI disagree on %v: %s vs %s", c.Case, c.In, c.Cli)
 		}
+	}
+	if r.Abandon() {
+		return
 	}
 	// minimise the word of each failing case (drop characters while it still fails) and deduplicate
 	cfgs := map[string]c04Config{}
@@ -304,7 +321,7 @@ func C04(r *core.Run) {
 	r.Cov["failing_cases"] = len(tot.Fails)
 	r.Cov["traces_validated_against_impl"] = validated
 	r.Cov["exhaustive"] = tot.Inconclusive == 0 && len(deaths) == 0
-	r.Cov["bound"] = map[string]any{"word_len": maxLen, "chars": c04Chars, "endings": c04Endings, "templates": 4, "configs": len(c04Configs()), "shells": 2}
+	r.Cov["bound"] = map[string]any{"word_len": maxLen, "chars": c04Chars, "endings": c04Endings, "templates": 5, "configs": len(c04Configs()), "shells": 2}
 	r.Cov["rule"] = "all words of <= word_len characters over the character set x endings x {unix, windows} x 4 templates x all configurations (+ verbatim lines); oracle: language of the reference expansion of the word (every evasion string of the configured patterns at once) is included in the generated regex, decided by product-automaton search; states/transitions = product states/transitions; every case is distinct and non-trivial (a word is always rewritten)"
 	r.Cov["samples"] = []any{c04Case{"a.b@", "unix", 3, "crs-like"}, c04Case{`a -\~`, "windows", 1, "crs-like-block-scalars"}, c04Case{"'[ab]+c", "unix", 2, "absent"}}
 	r.Assume = append(r.Assume, "expected patterns per configuration are known to the generator (the YAML is written from them), the model never parses YAML",
